@@ -5,7 +5,7 @@
    120-129 latex wrapper | 130-149 splitter | 150-159 round trip | 160-179 heap *)
 From Coq Require Import List NArith ZArith Bool.
 From BP Require Import Base.Chars Base.Sx Run.Codec.
-From BP Require Import Run.RunMonth Run.RunSplitter Run.RunEntry Run.RunLibrary Run.RunSortFields Run.RunSortBlocks Run.RunWriter Run.RunStack Run.RunEnclosing Run.RunInterpolate.
+From BP Require Import Run.RunMonth Run.RunSplitter Run.RunEntry Run.RunLibrary Run.RunSortFields Run.RunSortBlocks Run.RunWriter Run.RunStack Run.RunEnclosing Run.RunInterpolate Run.RunLatex Run.RunGrammar Run.RunHeap.
 Import ListNotations.
 Local Open Scope Z_scope.
 
@@ -24,7 +24,10 @@ Definition run_case (x : sx) : sx :=
       else if in_range 70 79 op then run_stack op args
       else if in_range 100 109 op then run_enclosing op args
       else if in_range 110 119 op then run_interpolate op args
+      else if in_range 120 129 op then run_latex op args
+      else if in_range 133 134 op then run_grammar op args
       else if in_range 130 149 op then run_splitter op args
+      else if in_range 160 179 op then run_heap op args
       else sx_err
   | _ => sx_err
   end.
